@@ -6,6 +6,10 @@ PROP = {
     "generated": [],
     "lean_modules": ["SwimVerif.Model.ValueOrd", "SwimVerif.Proofs.ValueOrd"],
     "engines": [
+        # the last clause of the property (take / drop of sorted collections): the real map lane with HashMap and
+        # BTreeMap backings against the model's key order (shared engine of C02/C03)
+        {"name": "ml", "crate": "core", "bin": "sv-ml", "machine": "ml", "modes": ["model"],
+         "cases": {"quick": 2000, "thorough": 100000}, "min_shard": 500, "nontrivial_min_ops": 6},
         # every value and every pair of the full boundary pool (220 values), one case per law instance
         dict(_ENG, name="value-pairs", shards=8, cases={"quick": 1, "thorough": 1},
              gen_args={"quick": ["pairs", "8"], "thorough": ["pairs", "8"]}),
